@@ -506,6 +506,17 @@ fn check_link_facts<W: World>(w: &W, r: &mut Run, op: &str, abs_l: &str, abs_t: 
     q(r, "is_file", v, Some(false), "link exclusion");
     let v = r.call(op, || fs.is_dir(abs_l));
     q(r, "is_dir", v, Some(false), "link exclusion");
+    // the same three answers for unclean spellings of the link's own path: every method resolves its argument
+    // lexically first, so a trailing separator or '/.' must not make the query look through the link
+    for suffix in ["/", "/.", "//"] {
+        let spelled = format!("{}{}", abs_l, suffix);
+        let v = r.call(op, || fs.is_symlink(&spelled));
+        q(r, &format!("is_symlink[link{}]", suffix), v, Some(true), "it is a link, whatever the spelling");
+        let v = r.call(op, || fs.is_file(&spelled));
+        q(r, &format!("is_file[link{}]", suffix), v, Some(false), "link exclusion, whatever the spelling");
+        let v = r.call(op, || fs.is_dir(&spelled));
+        q(r, &format!("is_dir[link{}]", suffix), v, Some(false), "link exclusion, whatever the spelling");
+    }
     // the kind flags speak about the recorded target: judge them only when the recording is right
     let recorded_ok = matches!(&ra, Some(Ok(p)) if ps(p) == abs_t);
     let (wd, wf) = if recorded_ok { kind_flags(kind) } else { (None, None) };
@@ -608,7 +619,19 @@ pub fn run_case<W: World>(w: &mut W, g: &Group, sp: usize, st: &mut Stats) -> Ve
 
     // ---- the transition under test
     let op = "symlink";
-    let res = match r.call(op, || w.fs().symlink(&abs_l, &arg)) {
+    // the link's own path is handed over in an unclean spelling for half of the target spellings: the stored
+    // target must be derived from the resolved link location, not from the argument as written
+    let link_arg = {
+        let cut = abs_l.rfind('/').unwrap();
+        let (parent, name) = (&abs_l[..cut], &abs_l[cut + 1..]);
+        match sp {
+            1 => format!("{}/x/../{}", parent, name),
+            3 => format!("{}//{}", parent, name),
+            5 => format!("{}/./{}/", parent, name),
+            _ => abs_l.to_string(),
+        }
+    };
+    let res = match r.call(op, || w.fs().symlink(&link_arg, &arg)) {
         None => return r.out,
         Some(x) => x,
     };
